@@ -783,7 +783,8 @@ func (lip6) Gen(rng *rand.Rand, tier string) []Case {
 					b[1] = 200
 				}
 			case 6:
-				b, a = a, mk(3)[:min(len(a), 47)]
+				m3 := mk(3)
+				b, a = a, m3[:min(len(m3), 47)]
 			case 7:
 				b = mk(2)
 				if k == "ip6" {
